@@ -1049,8 +1049,9 @@ func (r *Runtime) regexpproto_stdSplitter(call FunctionCall) Value {
 
 	for _, result := range results {
 		if result.indexes[0] == result.indexes[1] {
-			// FIXME Ugh, this is a hack
-			if result.indexes[0] == 0 || result.indexes[0] == targetLength {
+			// An empty match at the current split point (e == p in the specification's loop) or at the
+			// end of the string does not split.
+			if result.indexes[0] == lastIndex || result.indexes[0] == targetLength {
 				continue
 			}
 		}
